@@ -21,11 +21,14 @@ pub struct GameRecord {
     pub start: Start,
     /// play-phase actions applied so far (codes)
     pub actions: Vec<Code>,
+    /// set when the record comes from a transposition-order (level) tree walk: (actions at the tree root, depth);
+    /// such a finding may depend on the order of expansion, so the replayer repeats the whole level walk
+    pub level_tree: Option<(usize, u32)>,
 }
 
 impl GameRecord {
     pub fn new(family: &str, seed: u64, index: u64, start: Start) -> GameRecord {
-        GameRecord { family: family.to_string(), seed, index, start, actions: vec![] }
+        GameRecord { family: family.to_string(), seed, index, start, actions: vec![], level_tree: None }
     }
     pub fn actions_text(&self) -> Vec<String> {
         self.actions.iter().map(|c| code_text(*c)).collect()
@@ -53,6 +56,7 @@ impl GameRecord {
             "start": self.start_text(),
             "start_diagram": diagram,
             "actions": self.actions_text(),
+            "level_tree": self.level_tree.map(|(at, d)| json!({"root_after_actions": at, "depth": d})),
         })
     }
     pub fn from_json(v: &Value) -> Option<GameRecord> {
@@ -67,6 +71,7 @@ impl GameRecord {
             index: v.get("index").and_then(|f| f.as_u64()).unwrap_or(0),
             start,
             actions,
+            level_tree: v.get("level_tree").and_then(|t| Some((t.get("root_after_actions")?.as_u64()? as usize, t.get("depth")?.as_u64()? as u32))),
         })
     }
 }
